@@ -90,9 +90,11 @@ func (s *Scanner) Scan(ctx context.Context, r *scan.Request) (result scan.Result
 	var docker *moby.Client
 	if docker, err = moby.NewClientWithOpts(
 		moby.WithAPIVersionNegotiation(),
-		moby.WithHTTPClient(s.client),
 		moby.WithScheme(s.proto),
 		moby.WithHost(host),
+		// must come after WithHost: WithHost reconfigures the transport of the client
+		// it finds (proxy settings from the environment), and s.client is shared by all workers
+		moby.WithHTTPClient(s.client),
 	); err != nil {
 		return
 	}
